@@ -1309,6 +1309,9 @@ func (fi *FnInfo) summarizeFrom(mode Mode, starts []state, baseCut map[edgeKey]b
 				}
 				ex := exits[ek]
 				ex.Checked[lbl] = site
+				if tw, ok := labelTwin(lbl); ok {
+					ex.Checked[tw] = site
+				}
 				if comp != nil {
 					if !comp.Complete {
 						s.Complete = false
@@ -1440,6 +1443,9 @@ func (fi *FnInfo) mustPassBetweenCut(starts []int, targets map[int]bool, baseCut
 			}
 			truth := j == 0
 			labels[condLabel(iff.Cond, truth)] = fi.W.InstrPos(iff)
+			if tw, ok := labelTwin(condLabel(iff.Cond, truth)); ok {
+				labels[tw] = fi.W.InstrPos(iff)
+			}
 			if comp := fi.composeCond(iff.Cond, truth); comp != nil {
 				for l, st := range comp.Checked {
 					if _, ok := labels[l]; !ok {
@@ -1522,7 +1528,9 @@ func (fi *FnInfo) edgesMatching(sel EdgeSel) map[edgeKey]bool {
 			continue
 		}
 		for j := 0; j < 2; j++ {
-			if sel(condLabel(iff.Cond, j == 0), iff, j == 0) {
+			l := condLabel(iff.Cond, j == 0)
+			tw, hasTw := labelTwin(l)
+			if sel(l, iff, j == 0) || (hasTw && sel(tw, iff, j == 0)) {
 				out[edgeKey{b.Index, j}] = true
 			}
 		}
